@@ -232,6 +232,49 @@ func genCase(r *hx.Rand, tier string) *caseT {
 		}
 		return k
 	}
+	if !simple && r.Chance(1, 12) {
+		// trailers: announced in one or several Trailer values and/or sent through http.TrailerPrefix, values set
+		// before, between and after the body writes, sometimes changed or deleted again
+		names := []string{"X-T", "X-U", "X-Sum"}
+		if r.Chance(1, 2) {
+			k.Prog = append(k.Prog, opT{K: "H", Key: "Content-Type", Vals: []string{hx.Pick(r, []string{"text/plain", "application/json", "text/html"})}})
+		}
+		announce := r.Chance(5, 6)
+		if announce {
+			k.Prog = append(k.Prog, opT{K: "H", Key: "Trailer", Vals: hx.Pick(r, [][]string{{"X-T"}, {"X-T", "X-U"}, {"X-T, X-U"}, {"X-T,X-U", "X-Sum"}, {"X-U"}})})
+		}
+		if r.Chance(1, 4) {
+			k.Prog = append(k.Prog, opT{K: "H", Key: hx.Pick(r, names), Vals: []string{"early"}})
+		}
+		if r.Chance(1, 2) {
+			k.Prog = append(k.Prog, opT{K: "W", Code: hx.Pick(r, []int{200, 200, 201, 404, 204})})
+		}
+		late := func() {
+			switch r.Intn(6) {
+			case 0, 1, 2:
+				k.Prog = append(k.Prog, opT{K: "H", Key: hx.Pick(r, names), Vals: []string{hx.Pick(r, []string{"late", "v2", "sum=1"})}})
+			case 3:
+				k.Prog = append(k.Prog, opT{K: "H", Key: "Trailer:X-P", Vals: []string{"p"}})
+			case 4:
+				k.Prog = append(k.Prog, opT{K: "D", Key: hx.Pick(r, names)})
+			default:
+				k.Prog = append(k.Prog, opT{K: "H", Key: "X-Late", Vals: []string{"not-a-trailer"}})
+			}
+		}
+		for i := r.Range(1, 4); i > 0; i-- {
+			if r.Chance(1, 2) {
+				late()
+			}
+			if r.Chance(1, 6) {
+				k.Prog = append(k.Prog, opT{K: "F"})
+			}
+			k.Prog = append(k.Prog, opT{K: "B", Data: chunk()})
+		}
+		for i := r.Range(0, 3); i > 0; i-- {
+			late()
+		}
+		return k
+	}
 	if !simple && r.Chance(1, 10) {
 		// header edits after the response was committed, with deletions (the map does not grow):
 		// rename a header, delete one and add another, delete only
@@ -317,7 +360,11 @@ func genCase(r *hx.Rand, tier string) *caseT {
 				}
 				cs = append(cs, c)
 			}
-			k.Prog = append(k.Prog, opT{K: "C", Chunks: cs})
+			cp := opT{K: "C", Chunks: cs}
+			if r.Chance(1, 3) {
+				cp.Key = "eof" // the reader hands out its last bytes together with io.EOF
+			}
+			k.Prog = append(k.Prog, cp)
 		case 20:
 			switch r.Intn(3) {
 			case 0:
@@ -462,6 +509,16 @@ func fixedCases() []*caseT {
 			{K: "D", Key: "Cache-Control"}, {K: "H", Key: "X-Cache-Control", Vals: []string{"private"}}, {K: "B", Data: []byte("body")}}},
 		{Path: "/p", AE: gz, Opt: optT{MinSize: 1024}, Prog: []opT{ct, {K: "H", Key: "Cache-Control", Vals: []string{"no-store"}}, {K: "H", Key: "X-Early", Vals: []string{"original"}}, {K: "W", Code: 200},
 			{K: "D", Key: "Cache-Control"}, {K: "D", Key: "X-Early"}, {K: "H", Key: "X-Late", Vals: []string{"1"}}, {K: "B", Data: []byte("body")}}},
+		// trailers: announced on two Trailer lines and set while the body is held back; set before and after
+		// the commit; through http.TrailerPrefix next to an announced one
+		{Path: "/p", AE: gz, Prog: []opT{{K: "H", Key: "Trailer", Vals: []string{"X-T", "X-U"}}, {K: "B", Data: []byte("small body")}, {K: "H", Key: "X-T", Vals: []string{"late"}}, {K: "H", Key: "X-U", Vals: []string{"late-u"}}}},
+		{Path: "/p", AE: gz, Opt: optT{MinSize: 100}, Prog: []opT{ct, {K: "H", Key: "Trailer", Vals: []string{"X-T"}}, {K: "H", Key: "X-T", Vals: []string{"early"}}, {K: "W", Code: 200},
+			{K: "H", Key: "X-T", Vals: []string{"late"}}, {K: "B", Data: bytes.Repeat([]byte("a"), 200)}}},
+		{Path: "/p", AE: gz, Prog: []opT{ct, {K: "H", Key: "Trailer", Vals: []string{"X-T"}}, {K: "B", Data: []byte("body")}, {K: "H", Key: "Trailer:X-P", Vals: []string{"p"}}, {K: "H", Key: "X-T", Vals: []string{"t"}}}},
+		// a reader that returns its last bytes together with io.EOF
+		{Path: "/p", AE: gz, Prog: []opT{ct, {K: "C", Key: "eof", Chunks: [][]byte{[]byte("first "), []byte("last")}}}},
+		// K15p (open): a trailer through http.TrailerPrefix only, body larger than net/http's buffer but tiny once compressed
+		{Path: "/p", AE: gz, Prog: []opT{ct, {K: "B", Data: bytes.Repeat([]byte("a"), 3000)}, {K: "H", Key: "Trailer:X-P", Vals: []string{"v"}}}},
 		// an outer middleware already declared an encoding: the middleware stays out
 		{Path: "/p", AE: gz, Pre: [][2]string{{"Content-Encoding", "x-pre"}}, Prog: []opT{ct, {K: "B", Data: []byte("pre-encoded")}}},
 		{Path: "/p", AE: gz, Pre: [][2]string{{"X-Outer", "1"}, {"Vary", "Origin"}}, Prog: []opT{{K: "B", Data: []byte("<html>x")}}},
